@@ -47,3 +47,13 @@ func Field(p interface{}, field string, write bool) {
 	}
 	s.Observe(p, field, write)
 }
+
+// Global is inserted before every statement that reads or writes a package-level variable which some
+// function other than init assigns. Recorded like Field (no scheduling point of its own).
+func Global(name string, write bool) {
+	s := CurrentSession()
+	if s == nil {
+		return
+	}
+	s.Observe(nil, name, write)
+}
